@@ -6,5 +6,7 @@ tbl = subprocess.run(["python3", os.path.join(ROOT, "tools", "seed_table.py")], 
 p = os.path.join(ROOT, "DESIGN.md")
 s = open(p).read()
 s = re.sub(r"<!-- SEED-TABLE-BEGIN -->.*<!-- SEED-TABLE-END -->", "<!-- SEED-TABLE-BEGIN -->\n" + tbl.replace("\\", "\\\\") + "<!-- SEED-TABLE-END -->", s, flags=re.S)
+btbl = subprocess.run(["python3", os.path.join(ROOT, "tools", "benign_table.py")], capture_output=True, text=True).stdout
+s = re.sub(r"<!-- BENIGN-TABLE-BEGIN -->.*<!-- BENIGN-TABLE-END -->", "<!-- BENIGN-TABLE-BEGIN -->\n" + btbl.replace("\\", "\\\\") + "<!-- BENIGN-TABLE-END -->", s, flags=re.S)
 open(p, "w").write(s)
 print("table rows:", tbl.count("\n| C"))
